@@ -179,6 +179,11 @@ func (w *c8world) history(kind, a int, lg *zap.Logger) {
 		lg.Info("failing marshaler", zap.Object("bad", c8failing{a % 4}), zap.Array("arr", c8arr{a % 5}))
 	case 5:
 		lg.Warn("errors", zap.Errors("errs", []error{errors.New("x"), nil, fmt.Errorf("wrap: %w", errors.New("y"))}), zap.Error(multierr.Combine(errors.New("other-1"), errors.New("other-2"))))
+		if a%2 == 1 {
+			// error lists and groups with a member whose Error method panics
+			// (zap reports that member's failure and goes on)
+			lg.Warn("errors with a panicking member", zap.Errors("errs", []error{errors.New("x"), c8panicErr{}, errors.New("z")}), zap.NamedError("group", c8errGroup{[]error{errors.New("g1"), c8panicErr{}, errors.New("g3")}}))
+		}
 	case 6:
 		c8recurse([]int{60, 67, 74, 130, 520, 1040}[a%6], func() { lg.Error("deep stack") })
 	case 7:
@@ -283,6 +288,16 @@ const c8kinds = 21
 type c8panicArr struct{}
 
 func (c8panicArr) MarshalLogArray(zapcore.ArrayEncoder) error { panic("c8: marshaler bug") }
+
+type c8panicErr struct{}
+
+func (c8panicErr) Error() string { panic("c8: an error value whose Error method panics") }
+
+// c8errGroup: an error group whose own text does not depend on its members.
+type c8errGroup struct{ errs []error }
+
+func (g c8errGroup) Error() string   { return "a group of errors" }
+func (g c8errGroup) Errors() []error { return g.errs }
 
 type c8panicObj struct{}
 
